@@ -23,7 +23,7 @@ C = {
  "C10": ("model_checking", ["E3", "E1"], "bounded-exhaustive histories ending in into_seq_iter + concurrent-then-joined systems; remainder compared with the model's undelivered suffix", "into_seq_iter yields exactly the undelivered suffix in order (a suffix after skip), with exact size hint, for all histories and all interleavings of stop-early plans.", "5/C10"),
  "C11": ("model_checking", ["E3", "E1"], "try_get_len / has_more queried after every step of every bounded history + queries racing with pulls under all interleavings", "Exact length at every quiescent point for known sizes; Maybe only for unknown sizes and never after a single/one-shot end report or skip; reported lengths never increase and 0/No is definitive in every interleaving.", "5/C11"),
  "C12": ("model_checking", ["E1", "E3"], "controlled-scheduler exploration of for_each / enumerate_for_each / fold callers (chunk sizes 1,2,3) against each other and direct pullers", "Closure invoked exactly once per element with the right index, fold results flow through the accumulator, iterator exhausted after return, on every interleaving / sequential history.", "5/C12"),
- "C13": ("model_checking", ["E3", "E1"], "lock-step pair: every bounded history applied to the adaptor and to an identical underlying reference-yielding iterator + the concurrent oracles on adaptor kinds", "Observation streams of cloned()/copied() iterators equal those of the underlying iterator step by step; clones are clones, source untouched; concurrent exactly-once/order oracles on adaptor kinds.", "5/C13"),
+ "C13": ("model_checking", ["E3", "E1"], "lock-step pair: every bounded history applied to the adaptor and to an identical underlying reference-yielding iterator + the concurrent oracles on adaptor kinds + outcome sets of exhaustively explored closed systems compared between each adaptor and its underlying iterator", "Observation streams of cloned()/copied() iterators equal those of the underlying iterator step by step; clones are clones, source untouched; concurrent exactly-once/order oracles on adaptor kinds; per closed system (2-3 threads) the adaptor and its underlying reference-yielding iterator reach exactly the same set of outcomes over all interleavings.", "5/C13, 11.11"),
  "C14": ("exploration", ["E4", "E3"], "exhaustive family of probe programs judged by the compiler against a reference typing rule + bounded-exhaustive safe low-level call sequences with an ownership ledger", "The enumeration of programs / call sequences is exhaustive over the stated family; the verdict on one program is rustc's (not a model checker's), which is why the level is 'exploration'. Two genuine defects are recorded as known findings (F11, F12).", "3.4, 5/C14"),
  "C15": ("model_checking", ["E3", "E1"], "bounded-exhaustive histories on consuming kinds with a counting global allocator (element sizes 8 and 24 bytes, elements owning a heap block) + the same ledger after every interleaving of concurrent stop-early systems", "After every history and terminal, and after every explored interleaving followed by drop / into_seq_iter, no heap block that belonged to the consumed collection or was allocated by the iterator machinery is live.", "5/C15, 11.2"),
  "C16": ("exploration", ["E3", "E1"], "exhaustive grid of boundary inputs (range bounds^2, chunk sizes up to usize::MAX, zero sizes) x short follow-up histories, in a build with and one without overflow checks, against a mathematical model + all interleavings of zero-sized and one extreme chunk pull racing with ordinary pulls", "Every cell of the stated grid followed by every history of depth <= 3/4: exact in-range values and indices, no empty chunk, no panic except the documented ones (which must occur). Concurrent leg: zero-sized / usize::MAX/2 chunk pulls racing with single and chunk pulls on every kind under all interleavings keep exactly-once delivery (cumulative requests stay below usize::MAX, see DESIGN.md 11.10 residual).", "5/C16, 11.10"),
